@@ -73,7 +73,7 @@ class Peer:
         if d["ptype"] == rpc.BIND:
             a = d["auth"]
             self.auth_type = a["type"]
-            self.ctx = secctx.ntlm_server() if self.mode == "ntlm" else secctx.ScriptedContext([b"SRV1"], self.sig, role="server")
+            self.ctx = secctx.ntlm_server() if self.mode == "ntlm" else secctx.ScriptedContext(list(getattr(self, "server_tokens", [b"SRV1"])), self.sig, role="server")
             tok = self.ctx.step(a["token"])
             flags = 3
             if d["flags"] & rpc.PFC_SIGN and self.sign:
@@ -126,8 +126,11 @@ def exchange(api: str, peer: Peer, stub: bytes, vt, ctx_id: int = 0, opnum: int 
     user, pw = (secctx.NTLM_USER, secctx.NTLM_PASS) if peer.mode == "ntlm" else ("u", "p")
 
     def factory(u, p, **kw):
-        c_ = secctx.ScriptedContext([b"CLI1"], peer.sig)
+        legs = getattr(peer, "client_legs", 1)
+        c_ = secctx.ScriptedContext([b"CLI%d" % (i + 1) for i in range(legs)], peer.sig, complete_after=getattr(peer, "client_complete_after", None))
         c_.fail_wrap_at = dict(getattr(peer, "client_wrap_failures", {}))
+        c_.provisional_sig_size = getattr(peer, "client_provisional", None)
+        c_.strict_completion = True
         return c_
 
     import contextlib
@@ -270,6 +273,7 @@ def shards(tier: str, seed: int):
             for sign in (True, False):
                 out.append(["seq", api, sig, sign])
                 out.append(["fault", api, sig, sign])
+        out.append(["provider-shapes", api])
     return out
 
 
@@ -318,6 +322,44 @@ def run_shard(shard, tier, seed, acc) -> None:
                             acc.violate("seq.reply.stub", case + [i], {"got": bytes(rs[i].stub_data).hex()[:80]})
                     n += 1
         acc.sample({"api": api, "signature_size": sig, "three requests on one connection": "stub residues (a, b, a) for all a,b in 0..15"})
+    elif what == "provider-shapes":
+        # (a) a two-leg mechanism that reports a provisional (larger) signature size until the context is established: requests are framed
+        #     with the size valid when they are sent; (b) a mechanism that yields an empty token while it is still waiting for the peer: the
+        #     bind loop ends, but no request may leave unsealed - the call fails
+        for sig in SIZES:
+            for ln in (0, 1, 16, 33):
+                for vt_name in ("off", "isd"):
+                    stub = d.bytes(ln)
+                    peer = Peer("scripted", sig, True)
+                    # client: C1 -> (S1) C2 -> (S2) done; the context is established only after the SECOND server token
+                    peer.client_legs, peer.client_complete_after, peer.client_provisional = 2, 2, 76
+                    peer.server_tokens = [b"SRV1", b"SRV2"]
+                    case = ["provider-shapes", api, "provisional", sig, ln, vt_name]
+                    try:
+                        r, cctx = exchange(api, peer, stub, vts()[vt_name], 0, 0)
+                    except Exception as e:  # noqa: BLE001
+                        acc.violate(f"provisional.exc.{type(e).__name__}", case, {"exc": repr(e)}, size=ln)
+                        n += 1
+                        continue
+                    check_request(acc, case, peer, cctx, stub, vt_name, 0, 0)
+                    check_reply(acc, case, peer, cctx, r)
+                    n += 1
+        for ln in (0, 5, 16):
+            for vt_name in ("off", "isd"):
+                peer = Peer("scripted", 16, True)
+                peer.client_legs, peer.client_complete_after = 1, 2  # one token, then b"" while the context is still waiting for more
+                case = ["provider-shapes", api, "unfinished", ln, vt_name]
+                try:
+                    r, cctx = exchange(api, peer, d.bytes(ln), vts()[vt_name], 0, 0)
+                    acc.violate("unfinished-context.request-accepted", case, {"requests_on_the_wire": len(peer.requests)})
+                except Exception:  # noqa: BLE001
+                    acc.outcome("unfinished-context:refused")
+                n += 1
+                for w_ in peer.requests:
+                    dd = rpc.decode(w_, strict=False)
+                    if dd["auth"] is None or not isinstance(peer.unsealed[-1] if peer.unsealed else None, (bytes, bytearray)):
+                        acc.violate("unfinished-context.request-sent-unsealed", case, {"auth": None if dd["auth"] is None else dd["auth"]["level"]})
+        acc.sample({"api": api, "provider shapes": ["provisional signature size 76 until established", "empty token while unfinished"]})
     elif what == "fault":
         # a transient error of the security provider in the k-th wrap call: that request fails with the provider's error and is NOT
         # sent; every other request on the connection is framed and sealed exactly as without the failure
